@@ -27,6 +27,22 @@ func movesGen(r *common.Rng, n int, shard int, out *common.Out) {
 	starts := poslib.StartPositions()
 	cnt := 0
 	for cnt < n {
+		// one case in four is a position built around a rare structural coincidence (en passant just possible with pieces on
+		// the lines through the pawns, castling rights with attackers around, promotions next to pieces), or its successor
+		if r.Chance(1, 4) {
+			if fen, ok := poslib.MotifPosition(r); ok {
+				out.Line("%s", fen)
+				cnt++
+				if p, err := position.NewFromFen(fen); err == nil && r.Chance(1, 2) {
+					if legal := poslib.Legal(p); len(legal) > 0 {
+						p.MakeMove(legal[r.Intn(len(legal))])
+						out.Line("%s", p.ToFen())
+						cnt++
+					}
+				}
+			}
+			continue
+		}
 		si := r.Intn(len(starts))
 		if r.Chance(1, 2) {
 			si = r.Intn(2) // start position and Kiwipete carry half of the corpus
